@@ -70,6 +70,9 @@ type FnVC struct {
 	private      map[*ssa.Alloc]string
 	protected    []*ssa.Alloc
 	panicPoints  []panicPoint
+	pendingSite  string
+	immut        map[*ssa.Alloc]ssa.Value
+	pendingArgs  []TV
 	closures     map[ssa.Value]*ssa.MakeClosure
 	warnings     []string
 	callOrd      map[string]int
@@ -410,7 +413,11 @@ func (vc *FnVC) addrValue(a *ssa.FieldAddr) Term {
 	k := vc.e.typeKey(st)
 	fname := st.Underlying().(*types.Struct).Field(a.Field).Name()
 	f := sym("sub$" + k + "$" + fname)
-	vc.e.decl("sub:"+f, fmt.Sprintf("(declare-fun %s (Int) Int)\n(assert (forall ((r Int)) (! (< (%s r) 0) :pattern ((%s r)))))\n(assert (forall ((r Int) (q Int)) (! (=> (= (%s r) (%s q)) (= r q)) :pattern ((%s r) (%s q)))))", f, f, f, f, f, f, f))
+	if _, ok := vc.e.subIdx[f]; !ok {
+		vc.e.subIdx[f] = len(vc.e.subIdx) + 1
+	}
+	// an injective arithmetic encoding: distinct (struct, field) pairs and distinct parents give distinct negative refs
+	vc.e.decl("sub:"+f, fmt.Sprintf("(define-fun %s ((r Int)) Int (- (- (* r 1024)) %d))", f, vc.e.subIdx[f]))
 	vc.e.assumption["inner pointers &x.f of by-value struct fields are modelled as separate objects sub$T$f(x) (injective, never nil); whole-struct copies of such structs are not modelled"] = true
 	return app(f, vc.val(a.X))
 }
@@ -509,7 +516,7 @@ func (vc *FnVC) translate() (err error) {
 		case b == fn.Recover:
 			// reached when a panic was recovered by a deferred call: the state at one of the calls that may panic
 			// (the callee's partial effects included), then the deferred calls ran
-			if len(vc.panicPoints) == 0 {
+			if len(vc.panicPoints) == 0 || !vc.mayRecover() {
 				lit = "false"
 				m = vc.mem0
 				break
@@ -595,6 +602,58 @@ func (vc *FnVC) keepSet() map[string]bool {
 	return keep
 }
 
+// mayRecover: does some deferred closure of this function call recover()? Otherwise panics propagate and the
+// recover block is dead code.
+func (vc *FnVC) mayRecover() bool {
+	for _, b := range vc.fn.Blocks {
+		for _, in := range b.Instrs {
+			d, ok := in.(*ssa.Defer)
+			if !ok {
+				continue
+			}
+			var callee *ssa.Function
+			switch v := d.Call.Value.(type) {
+			case *ssa.MakeClosure:
+				callee = v.Fn.(*ssa.Function)
+			case *ssa.Function:
+				callee = v
+			default:
+				if !d.Call.IsInvoke() {
+					return true // unknown deferred function value
+				}
+			}
+			if callee != nil && len(callee.Blocks) > 0 {
+				for _, cb := range callee.Blocks {
+					for _, ci := range cb.Instrs {
+						if c, ok := ci.(*ssa.Call); ok {
+							if bi, ok := c.Call.Value.(*ssa.Builtin); ok && bi.Name() == "recover" {
+								return true
+							}
+						}
+					}
+				}
+			}
+		}
+	}
+	return false
+}
+
+// keepSetWithKeeps: like keepSet, plus the components the contract's (trusted) `keeps` clause declares out of reach
+// of the opaque callees of this function.
+func (vc *FnVC) keepSetWithKeeps() map[string]bool {
+	keep := vc.keepSet()
+	if vc.ct == nil || len(vc.ct.Keeps) == 0 {
+		return keep
+	}
+	fake := &FuncContract{HasAssign: true, Assigns: vc.ct.Keeps}
+	set, _ := vc.w.assignSet(vc.e, vc.fn.Pkg.Pkg, fake)
+	for c := range set {
+		keep[c] = true
+	}
+	vc.trustedUsed[fmt.Sprintf("keeps clause of %s: opaque callees do not modify %s", vc.qualName(), strings.Join(vc.ct.Keeps, ", "))] = true
+	return keep
+}
+
 func (vc *FnVC) initGhosts(m *Mem) *Mem {
 	env := vc.newEnv(m, vc.mem0)
 	for _, g := range vc.ct.EntryGhost {
@@ -613,6 +672,11 @@ func (vc *FnVC) assumeWF(t Term, ty types.Type, m *Mem) {
 			implies(app("=", app("sref", t), "0"), and(app("=", app("slen", t), "0"), app("=", app("scap", t), "0")))))
 	case *types.Pointer, *types.Map, *types.Chan:
 		vc.assume("true", and(app(">=", t, "0"), app("<", t, m.get(nextComp))))
+	case *types.Interface:
+		// references held in an interface value are allocated objects
+		n := m.get(nextComp)
+		vc.assume("true", and(implies(app("(_ is aref)", t), and(app(">=", app("arf", t), "0"), app("<", app("arf", t), n))),
+			implies(app("(_ is aslice)", t), app("<", app("sref", app("aslv", t)), n))))
 	case *types.Basic:
 		if u.Info()&types.IsUnsigned != 0 {
 			vc.assume("true", app(">=", t, "0"))
@@ -987,7 +1051,7 @@ func (vc *FnVC) enterLoop(l *Loop, lit Term, entry *Mem) *Mem {
 }
 
 func (vc *FnVC) keepSetExcept(set map[string]bool) map[string]bool {
-	keep := vc.keepSet()
+	keep := vc.keepSetWithKeeps()
 	for c := range set {
 		delete(keep, c)
 	}
